@@ -34,4 +34,11 @@ ol.ensure("flags", lambda cx, result, self, line: z3.ForAll([z3.String("s!fl")],
     S.mem_term(toks(line), z3.String("s!fl")), z3.Not(is_log(z3.String("s!fl"))))))
 ol.ensure("logs", lambda cx, result, self, line: z3.ForAll([z3.String("s!lg")], S.mem_term(cx.get(self, "_logs"), z3.String("s!lg")) == z3.And(
     S.mem_term(toks(line), z3.String("s!lg")), is_log(z3.String("s!lg")))))
+# instances of the two clauses above without a quantified word: a changed body that breaks the general clause usually breaks one of these, and the solver
+# finds a counter-model for them (for the general clause it mostly answers unknown)
+for _w in LOGS:
+    ol.ensure(f"`{_w}` is no flag", lambda cx, result, self, line, _w=_w: z3.Not(S.mem_term(cx.get(self, "_flags"), z3.StringVal(_w))))
+    ol.ensure(f"`{_w}` is logged", lambda cx, result, self, line, _w=_w: S.mem_term(cx.get(self, "_logs"), z3.StringVal(_w)) == S.mem_term(toks(line), z3.StringVal(_w)))
+ol.ensure("last word", lambda cx, result, self, line: z3.Implies(z3.And(toks(line).n >= 1, z3.Not(is_log(toks(line).a[toks(line).n - 1]))),
+                                                                 S.mem_term(cx.get(self, "_flags"), toks(line).a[toks(line).n - 1])))
 ol.loop(0, lambda cx, k, v: z3.BoolVal(True))
